@@ -531,6 +531,163 @@ Proof.
       * exact (Hko p Hs Hkd Hdef).
 Qed.
 
+(* ================================================================== the call-signature adapter *)
+(* Model of jax2onnx.plugins._patching.plan_call: how a call reaches a substitute w installed for an
+   original o.  Values are abstracted by one oracle: dflt a = "the value given for the original's parameter a
+   is that parameter's default".  The harness compares this model with the real plan_call on random call
+   forms over the real signature pairs (tie), so the theorems below speak about the installed adapter. *)
+Inductive plan :=
+| Direct                                   (* the substitute binds the call itself: passed on unchanged *)
+| Foreign                                  (* not a call form of the original either: the substitute's own TypeError *)
+| Routed (c' : call) (dropped : list string)  (* re-routed by name; `dropped` arguments are not delivered *)
+| Original.                                (* an argument cannot be delivered: the original is called instead *)
+
+Definition named (sig : list param) : list param :=
+  filter (fun p => negb (is_kind VarPos p || is_kind VarKw p)) sig.
+Definition find_param (a : string) (l : list param) : option param :=
+  find (fun p => String.eqb (p_name p) a) l.
+Fixpoint index_of (a : string) (l : list param) : option nat :=
+  match l with
+  | [] => None
+  | p :: r => if String.eqb (p_name p) a then Some 0 else option_map S (index_of a r)
+  end.
+(* a positional parameter that only changed its name keeps its position *)
+Definition renamed (w o : list param) (a : string) : option string :=
+  match index_of a (positional o) with
+  | Some i =>
+      match nth_error (positional w) i with
+      | Some q => if negb (mem a (names (named w))) && negb (mem (p_name q) (names (named o)))
+                  then Some (p_name q) else None
+      | None => None
+      end
+  | None => None
+  end.
+
+Inductive dest := ToParam (b : string) | ToVarKw (k : string) | Dropped (a : string) | Undeliverable.
+
+(* an argument given for the original's declared parameter a *)
+Definition dest_named (w o : list param) (dflt : string -> bool) (a : string) : dest :=
+  if mem a (names (named w)) then ToParam a
+  else match renamed w o a with
+       | Some b => ToParam b
+       | None =>
+           let posonly := match find_param a o with Some p => is_kind PosOnly p | None => false end in
+           if has_varkw w && negb posonly then ToVarKw a
+           else if dflt a then Dropped a else Undeliverable
+       end.
+(* a keyword collected by the original's **kwargs *)
+Definition dest_extra (w : list param) (k : string) : dest :=
+  match find_param k (named w) with
+  | Some p => if is_kind PosOnly p then (if has_varkw w then ToVarKw k else Undeliverable) else ToParam k
+  | None => if has_varkw w then ToVarKw k else Undeliverable
+  end.
+
+Definition route (w o : list param) (dflt : string -> bool) (c : call) : plan :=
+  let n := c_npos c in
+  let given_pos := names (pos_filled o n) in
+  let extras := n - length (positional o) in
+  let k_named := filter (fun k => mem k (kw_targets o n)) (c_kws c) in
+  let k_extra := filter (fun k => negb (mem k (kw_targets o n))) (c_kws c) in
+  let dests := map (dest_named w o dflt) (given_pos ++ k_named) ++ map (dest_extra w) k_extra in
+  if existsb (fun d => match d with Undeliverable => true | _ => false end) dests then Original else
+  let vals := flat_map (fun d => match d with ToParam b => [b] | _ => [] end) dests in
+  let xkw := flat_map (fun d => match d with ToVarKw k => [k] | _ => [] end) dests in
+  let dropped := flat_map (fun d => match d with Dropped a => [a] | _ => [] end) dests in
+  if negb (nodupb vals) || negb (nodupb xkw) || existsb (fun k => mem k vals) xkw then Original else
+  if Nat.ltb 0 extras && negb (has_varpos w) then Original else
+  (* longest prefix of the substitute's positional parameters that all have a value *)
+  let fix prefix (l : list param) : nat :=
+      match l with [] => 0 | p :: r => if mem (p_name p) vals then S (prefix r) else 0 end in
+  let k := prefix (positional w) in
+  let rest := filter (fun p => mem (p_name p) vals) (skipn k (positional w)) in
+  if existsb (is_kind PosOnly) rest then Original else
+  if Nat.ltb 0 extras && Nat.ltb k (length (positional w)) then Original else
+  let kws' := names rest ++ names (filter (fun p => mem (p_name p) vals) (kwonly w)) ++ xkw in
+  let c' := {| c_npos := k + extras; c_kws := kws' |} in
+  if negb (nodupb kws') then Original else
+  if negb (Nat.eqb (c_npos c' + length kws' + length dropped) (n + length (c_kws c))) then Original else
+  if binds w c' then Routed c' dropped else Original.
+
+Definition adapter (w o : list param) (dflt : string -> bool) (c : call) : plan :=
+  if binds w c then Direct
+  else if negb (binds o c) then Foreign
+  else route w o dflt c.
+
+(* 1. a call the substitute accepts today is passed on unchanged *)
+Theorem adapter_conservative w o dflt c : binds w c = true -> adapter w o dflt c = Direct.
+Proof. unfold adapter. now intros ->. Qed.
+
+(* 2. every call form of the original is handled: never the substitute's binding error *)
+Theorem adapter_accepts w o dflt c : binds o c = true -> adapter w o dflt c <> Foreign.
+Proof.
+  unfold adapter, route. intro H. destruct (binds w c); [discriminate|]. rewrite H. simpl.
+  repeat match goal with |- context [if ?b then _ else _] => destruct b end; discriminate.
+Qed.
+
+Theorem adapter_foreign w o dflt c :
+  adapter w o dflt c = Foreign -> binds o c = false /\ binds w c = false.
+Proof.
+  intro H. destruct (binds o c) eqn:Eo.
+  - exfalso. eapply adapter_accepts; eauto.
+  - split; [reflexivity|]. destruct (binds w c) eqn:Ew; [|reflexivity].
+    rewrite (adapter_conservative w o dflt c Ew) in H. discriminate.
+Qed.
+
+Lemma route_routed w o dflt c c' d :
+  route w o dflt c = Routed c' d ->
+  binds w c' = true /\ NoDup (c_kws c') /\
+  c_npos c' + length (c_kws c') + length d = c_npos c + length (c_kws c) /\
+  (forall a, In a d -> dflt a = true).
+Proof.
+  unfold route.
+  repeat match goal with
+  | |- context [if ?b then _ else _] => let E := fresh "E" in destruct b eqn:E; try discriminate
+  end.
+  intro H. injection H as <- <-. simpl.
+  split; [assumption|]. split.
+  - match goal with E : negb (nodupb ?l) = false |- NoDup ?l =>
+      apply negb_false_iff in E; revert E; generalize l end.
+    induction l as [|x l IH]; simpl; intro Hn; [constructor|].
+    apply andb_true_iff in Hn. destruct Hn as [Hx Hl]. constructor; [|auto].
+    apply negb_true_iff, mem_false in Hx. exact Hx.
+  - split.
+    + match goal with E : negb (Nat.eqb _ _) = false |- _ =>
+        apply negb_false_iff, Nat.eqb_eq in E; simpl in E; exact E end.
+    + intros a Ha. apply in_flat_map in Ha. destruct Ha as [dd [Hin Hd]].
+      destruct dd; simpl in Hd; try tauto. destruct Hd as [<-|[]].
+      apply in_app_or in Hin. destruct Hin as [Hin|Hin]; apply in_map_iff in Hin; destruct Hin as [x [Hx _]].
+      * unfold dest_named in Hx.
+        destruct (mem x (names (named w))); [discriminate|].
+        destruct (renamed w o x); [discriminate|].
+        destruct (has_varkw w && negb _); [discriminate|].
+        destruct (dflt x) eqn:Ed; [|discriminate]. now injection Hx as <-.
+      * unfold dest_extra in Hx. destruct (find_param x (named w)) as [p|].
+        -- destruct (is_kind PosOnly p); [destruct (has_varkw w)|]; discriminate.
+        -- destruct (has_varkw w); discriminate.
+Qed.
+
+(* 3. a re-routed call: the substitute receives a legal call form it accepts; every argument is delivered
+      exactly once or dropped; an argument is dropped only when its value is the original's default *)
+Theorem adapter_routed w o dflt c c' d :
+  adapter w o dflt c = Routed c' d ->
+  binds o c = true /\ binds w c = false /\ binds w c' = true /\ NoDup (c_kws c') /\
+  c_npos c' + length (c_kws c') + length d = c_npos c + length (c_kws c) /\
+  (forall a, In a d -> dflt a = true).
+Proof.
+  unfold adapter. destruct (binds w c) eqn:Ew; [discriminate|].
+  destruct (binds o c) eqn:Eo; simpl; [|discriminate]. intro H.
+  split; [reflexivity|]. split; [reflexivity|]. eapply route_routed; eauto.
+Qed.
+
+(* 4. with the adapter installed no call form of the original fails at binding *)
+Corollary adapter_total w o dflt c :
+  binds o c = true ->
+  adapter w o dflt c = Direct \/ adapter w o dflt c = Original \/ exists c' d, adapter w o dflt c = Routed c' d.
+Proof.
+  intro H. pose proof (adapter_accepts w o dflt c H) as Hf.
+  destruct (adapter w o dflt c) as [| |c' d|]; auto; [tauto|]. right. right. eauto.
+Qed.
+
 (* ================================================================== non-vacuity / sanity examples *)
 Local Open Scope string_scope.
 Definition P (n : string) (k : kind) (d : bool) : param := {| p_name := n; p_kind := k; p_default := d |}.
@@ -586,3 +743,15 @@ Example ex_varkw : subsumes_witness [P "x" PosOrKw false] [P "x" PosOrKw false; 
                    = Some (C 0 ["kw"; "x"]). Proof. reflexivity. Qed.
 (* reflexivity of subsumption on a signature using every kind *)
 Example ex_refl : sig_subsumes ex_full ex_full = true. Proof. reflexivity. Qed.
+
+(* adapter: a renamed positional parameter given by keyword; an optional keyword the substitute lacks *)
+Definition ex_lin_o : list param := [P "inputs" PosOrKw false; P "out_sharding" PosOrKw true].
+Definition ex_lin_w : list param := [P "x" PosOrKw false].
+Example ex_ad1 : adapter ex_lin_w ex_lin_o (fun _ => true) (C 0 ["inputs"]) = Routed (C 1 []) []. Proof. reflexivity. Qed.
+Example ex_ad2 : adapter ex_lin_w ex_lin_o (fun _ => true) (C 1 ["out_sharding"]) = Routed (C 1 []) ["out_sharding"]. Proof. reflexivity. Qed.
+Example ex_ad3 : adapter ex_lin_w ex_lin_o (fun _ => false) (C 1 ["out_sharding"]) = Original. Proof. reflexivity. Qed.
+Example ex_ad4 : adapter ex_lin_w ex_lin_o (fun _ => false) (C 1 []) = Direct. Proof. reflexivity. Qed.
+Example ex_ad5 : adapter ex_lin_w ex_lin_o (fun _ => false) (C 3 []) = Foreign. Proof. reflexivity. Qed.
+(* positional argument for a parameter the substitute made keyword-only *)
+Example ex_ad6 : adapter [P "x" PosOrKw false; P "k" KwOnly true] [P "x" PosOrKw false; P "k" PosOrKw true]
+                   (fun _ => false) (C 2 []) = Routed (C 1 ["k"]) []. Proof. reflexivity. Qed.
